@@ -311,7 +311,7 @@ def make_harness(case, tier):
                 cv = Config(base, name=f'va{n}', namespace='valid', data={'tasks': list(dcl.values()), 'size': b})
                 main = Config(base, name=f'main{n}', data={'tasks': list(mcl.values()), 'uses': [ct, cv]})
                 chains.append(keylib.chain(main))
-            same = z3.And(sizes[0].t == sizes[2].t, sizes[1].t == sizes[3].t)
+            same = z3.And(py_eq(sizes[0], sizes[2]), py_eq(sizes[1], sizes[3]))
             for t in ('merge', 'report'):
                 k1, k2 = chains[0].tasks[t].name_for_persistence, chains[1].tasks[t].name_for_persistence
                 ctx.check(z3.Implies(z3.Not(same), keys_differ(k1, k2)), 'wiring',
